@@ -1,6 +1,6 @@
 (* Property C14 -- every operation causes a bounded message burst, then silence *)
 (* Statements only: each theorem restates the proved lemma's statement and is closed by [exact]. *)
-From NunDB Require Import Model.Base Model.Pending Model.Parse Model.Node Model.Oplog Model.Cluster Proofs.PendingProofs Proofs.DbProofs Proofs.ClusterProofs Proofs.SyncProofs Proofs.ConvergeProofs.
+From NunDB Require Import Model.Base Model.Pending Model.Parse Model.Node Model.Oplog Model.Cluster Proofs.PendingProofs Proofs.DbProofs Proofs.ClusterProofs Proofs.SyncProofs Proofs.ConvergeProofs Proofs.BurstProofs.
 Local Open Scope Z_scope.
 
 (* the replication thread of a secondary queues nothing for any member and registers nothing *)
@@ -139,3 +139,167 @@ Theorem C14_replicated_line_applies :
              n_role n3 = n_role n /\ split_lines inbox = [ack_text id (n_addr n); "ok"].
 Proof. exact replicated_line_applies. Qed.
 Print Assumptions C14_replicated_line_applies.
+
+(* one accepted client write on the primary, then any schedule of polls, deliveries and replies: at silence exactly 2 messages per secondary have crossed (the line and its ack) *)
+Theorem C14_burst_exact_cluster :
+  forall (P dbn : str) (Ss : list str) (cidx : nat) (lk : str -> nat) (c : cluster) 
+           (w : cop) (B : N) (evs : list cev),
+         simple_tok dbn ->
+         (forall S : str, In S Ss -> simple_tok S) ->
+         NoDup Ss ->
+         Formed P dbn Ss cidx lk c ->
+         cop_ok w ->
+         cl_bound c B ->
+         (B + 2 <= 2 ^ 64)%N ->
+         resp_ok (snd (client_cmd c P cidx (cop_line w))) = true ->
+         Forall (bev_ok Ss) evs ->
+         let final := run P cidx lk (fst (client_cmd c P cidx (cop_line w))) evs in
+         silent P Ss lk final -> c_cross final = (c_cross c + 2 * N.of_nat (Datatypes.length Ss))%N.
+Proof. exact C14_burst_exact. Qed.
+Print Assumptions C14_burst_exact_cluster.
+
+(* crossed + 2*(lines in flight) + (acks waiting) is constant along every schedule *)
+Theorem C14_burst_potential_invariant :
+  forall (P dbn : str) (Ss : list str) (cidx : nat) (lk : str -> nat) (c : cluster) 
+           (w : cop) (B : N) (evs : list cev),
+         simple_tok dbn ->
+         (forall S : str, In S Ss -> simple_tok S) ->
+         NoDup Ss ->
+         Formed P dbn Ss cidx lk c ->
+         cop_ok w ->
+         cl_bound c B ->
+         (B + 2 <= 2 ^ 64)%N ->
+         resp_ok (snd (client_cmd c P cidx (cop_line w))) = true ->
+         Forall (bev_ok Ss) evs ->
+         Phi P Ss lk (run P cidx lk (fst (client_cmd c P cidx (cop_line w))) evs) =
+         (c_cross c + 2 * N.of_nat (Datatypes.length Ss))%N.
+Proof. exact C14_potential_invariant. Qed.
+Print Assumptions C14_burst_potential_invariant.
+
+(* the bound holds at every moment, not only at silence *)
+Theorem C14_burst_bounded_anytime_cluster :
+  forall (P dbn : str) (Ss : list str) (cidx : nat) (lk : str -> nat) (c : cluster) 
+           (w : cop) (B : N) (evs : list cev),
+         simple_tok dbn ->
+         (forall S : str, In S Ss -> simple_tok S) ->
+         NoDup Ss ->
+         Formed P dbn Ss cidx lk c ->
+         cop_ok w ->
+         cl_bound c B ->
+         (B + 2 <= 2 ^ 64)%N ->
+         resp_ok (snd (client_cmd c P cidx (cop_line w))) = true ->
+         Forall (bev_ok Ss) evs ->
+         (c_cross (run P cidx lk (fst (client_cmd c P cidx (cop_line w))) evs) <=
+          c_cross c + 2 * N.of_nat (Datatypes.length Ss))%N.
+Proof. exact C14_burst_bounded_anytime. Qed.
+Print Assumptions C14_burst_bounded_anytime_cluster.
+
+Theorem C14_burst_bounded_cluster :
+  forall (P dbn : str) (Ss : list str) (cidx : nat) (lk : str -> nat) (c : cluster) 
+           (w : cop) (B : N) (evs : list cev),
+         simple_tok dbn ->
+         (forall S : str, In S Ss -> simple_tok S) ->
+         NoDup Ss ->
+         Formed P dbn Ss cidx lk c ->
+         cop_ok w ->
+         cl_bound c B ->
+         (B + 2 <= 2 ^ 64)%N ->
+         resp_ok (snd (client_cmd c P cidx (cop_line w))) = true ->
+         Forall (bev_ok Ss) evs ->
+         let final := run P cidx lk (fst (client_cmd c P cidx (cop_line w))) evs in
+         silent P Ss lk final -> (c_cross final - c_cross c <= 1 + 2 * N.of_nat (Datatypes.length Ss))%N.
+Proof. exact C14_burst_bounded. Qed.
+Print Assumptions C14_burst_bounded_cluster.
+
+(* after the burst nothing is deliverable and no further event moves a message *)
+Theorem C14_then_silence_cluster :
+  forall (P dbn : str) (Ss : list str) (cidx : nat) (lk : str -> nat) (c : cluster) 
+           (w : cop) (B : N) (evs : list cev),
+         simple_tok dbn ->
+         (forall S : str, In S Ss -> simple_tok S) ->
+         NoDup Ss ->
+         Formed P dbn Ss cidx lk c ->
+         cop_ok w ->
+         cl_bound c B ->
+         (B + 2 <= 2 ^ 64)%N ->
+         resp_ok (snd (client_cmd c P cidx (cop_line w))) = true ->
+         Forall (bev_ok Ss) evs ->
+         let final := run P cidx lk (fst (client_cmd c P cidx (cop_line w))) evs in
+         silent P Ss lk final ->
+         (forall S : str, In S Ss -> deliver final (lk S) = None /\ reply final (lk S) = None) /\
+         (forall e : cev, bev_ok Ss e -> c_cross (cstep P cidx lk final e) = c_cross final) /\
+         (forall evs' : list cev,
+          Forall (bev_ok Ss) evs' ->
+          silent P Ss lk (run P cidx lk final evs') /\ c_cross (run P cidx lk final evs') = c_cross final).
+Proof. exact C14_then_silence. Qed.
+Print Assumptions C14_then_silence_cluster.
+
+(* the pending-operation table is back to what it was *)
+Theorem C14_pending_cleared_cluster :
+  forall (P dbn : str) (Ss : list str) (cidx : nat) (lk : str -> nat) (c : cluster) 
+           (w : cop) (B : N) (evs : list cev),
+         simple_tok dbn ->
+         (forall S : str, In S Ss -> simple_tok S) ->
+         NoDup Ss ->
+         Formed P dbn Ss cidx lk c ->
+         cop_ok w ->
+         cl_bound c B ->
+         (B + 2 <= 2 ^ 64)%N ->
+         resp_ok (snd (client_cmd c P cidx (cop_line w))) = true ->
+         Forall (bev_ok Ss) evs ->
+         Closed P Ss lk c ->
+         let final := run P cidx lk (fst (client_cmd c P cidx (cop_line w))) evs in
+         silent P Ss lk final -> pending_of P final = pending_of P c.
+Proof. exact C14_pending_cleared. Qed.
+Print Assumptions C14_pending_cleared_cluster.
+
+(* a refused write sends nothing at all *)
+Theorem C14_refused_write_sends_nothing_cluster :
+  forall (P dbn : str) (Ss : list str) (cidx : nat) (lk : str -> nat) (c : cluster) 
+           (w : cop) (evs : list cev),
+         simple_tok dbn ->
+         (forall S : str, In S Ss -> simple_tok S) ->
+         Formed P dbn Ss cidx lk c ->
+         cop_ok w ->
+         resp_ok (snd (client_cmd c P cidx (cop_line w))) = false ->
+         Forall (bev_ok Ss) evs ->
+         let final := run P cidx lk (fst (client_cmd c P cidx (cop_line w))) evs in
+         c_cross final = c_cross c /\
+         silent P Ss lk final /\
+         (forall (S : str) (l : link), In S Ss -> link_of lk final S = Some l -> l_q l = [] /\ l_replies l = []).
+Proof. exact C14_refused_write_sends_nothing. Qed.
+Print Assumptions C14_refused_write_sends_nothing_cluster.
+
+(* the hypothesis 'no secondary listed twice' cannot be dropped *)
+Theorem C14_burst_needs_nodup :
+  let Ss := ["s1"; "s1"] in
+         let sched := [EvPollRepl; EvDeliver "s1"; EvReply "s1"; EvReply "s1"; EvPollS "s1"] in
+         let final := run "p1" 0 ex_lk (fst (client_cmd ex_c "p1" 0 (cop_line bx_w))) sched in
+         Formed "p1" "d" Ss 0 ex_lk ex_c /\
+         Forall (bev_ok Ss) sched /\
+         silent "p1" Ss ex_lk final /\
+         c_cross final = (c_cross ex_c + 2)%N /\
+         c_cross final <> (c_cross ex_c + 2 * N.of_nat (Datatypes.length Ss))%N.
+Proof. exact burst_needs_nodup. Qed.
+Print Assumptions C14_burst_needs_nodup.
+
+(* the hypothesis Closed cannot be dropped *)
+Theorem C14_pending_needs_closed :
+  let Ss := ["s1"] in
+         let sched := [EvPollRepl; EvDeliver "s1"; EvReply "s1"; EvReply "s1"; EvPollS "s1"] in
+         let final := run "p1" 0 ex_lk (fst (client_cmd ex_c "p1" 0 (cop_line bx_w))) sched in
+         Formed "p1" "d" Ss 0 ex_lk ex_c /\
+         Forall (bev_ok Ss) sched /\
+         silent "p1" Ss ex_lk final /\
+         c_cross final = (c_cross ex_c + 2 * N.of_nat (Datatypes.length Ss))%N /\
+         pending_of "p1" ex_c = [] /\
+         is_pending (pending_of "p1" final) 25 = true /\ ~ Closed "p1" Ss ex_lk ex_c.
+Proof. exact pending_needs_closed. Qed.
+Print Assumptions C14_pending_needs_closed.
+
+(* the hypotheses are satisfiable: a concrete 3-node cluster *)
+Theorem C14_burst_example_exact :
+  c_cross (run "p1" 0 ex_lk (fst (client_cmd ex_c "p1" 0 (cop_line bx_w))) bx_sched) =
+         (c_cross ex_c + 2 * N.of_nat (Datatypes.length ["s1"; "s2"]))%N.
+Proof. exact burst_example_exact. Qed.
+Print Assumptions C14_burst_example_exact.
